@@ -39,7 +39,47 @@ def cases(draw):
     if kind == "forced":
         sibs = [x for x in m.types if set(m.keys(x)) == set(m.keys(t))]
         return {"uri": draw(st.sampled_from(sibs)) + ":" + s, "kind": kind, "x": "x"}
-    return {"uri": s, "kind": kind, "x": "x"}
+    # the same Sid reached through another constructor: the hierarchy must not depend on how a Sid was built
+    via = draw(st.sampled_from(["string", "string", "fields", "query", "get_with", "path", "div"]))
+    return {"uri": s, "kind": kind, "x": "x", "via": via, "perm": draw(st.integers(0, 10 ** 6))}
+
+
+def rebuild(sid, via, perm):
+    """The same Sid obtained through another constructor (None when that constructor does not apply)."""
+    import random
+    from spil import Sid
+    model = confmodel.load()
+    fields = sid.fields
+    keys = list(fields)
+    if via == "fields":
+        random.Random(perm).shuffle(keys)
+        return Sid(fields={k: fields[k] for k in keys})
+    if via == "query":
+        if len(keys) < 2:
+            return Sid(query=sid.as_query())
+        cut = 1 + perm % (len(keys) - 1)
+        base = "/".join(fields[k] for k in keys[:cut])
+        q = "&".join(f"{k}={fields[k]}" for k in reversed(keys[cut:]))
+        return Sid(base + "?" + q)
+    if via == "get_with":
+        if len(keys) < 2:
+            return None
+        cut = 1 + perm % (len(keys) - 1)
+        base = Sid("/".join(fields[k] for k in keys[:cut]))
+        return base.get_with(**{k: fields[k] for k in reversed(keys[cut:])}) if base else None
+    if via == "div":
+        if len(keys) < 2:
+            return None
+        cur = Sid(fields[keys[0]])
+        for k in keys[1:]:
+            cur = cur / fields[k]
+        return cur
+    if via == "path":
+        if sid.is_search():
+            return None
+        p = sid.path()
+        return Sid(path=p) if p else None
+    return None
 
 
 def evaluate(case) -> Outcome:
@@ -52,6 +92,18 @@ def evaluate(case) -> Outcome:
         out.add(f"C03/raises/Sid/{exc_sig(sid)}", f"Sid({text!r}) raised {sid!r}")
         return out
     empty = Sid()
+    via = case.get("via", "string")
+    if sid and via != "string":
+        ok, alt = call(rebuild, sid, via, case.get("perm", 0))
+        if not ok:
+            out.add(f"C03/via-{via}/raises/{exc_sig(alt)}", f"rebuilding {sid!r} via {via} raised {alt!r}")
+            return out
+        if alt is not None:
+            if not alt or alt != sid:
+                out.label(f"via-{via}:other-sid")      # e.g. values with URL metacharacters in a query: not this check's concern
+            else:
+                out.label("via:" + via)
+                sid = alt
 
     if not sid:
         out.label("untyped")
